@@ -504,7 +504,7 @@ Eor = make_regreg("eor", 0b0100000001)
 Cmp = make_regreg("cmp", 0b0100001010)
 Lsl = make_regreg("lsl", 0b0100000010)
 Lsr = make_regreg("lsr", 0b0100000011)
-Asr = make_regreg("lsr", 0b0100000100)
+Asr = make_regreg("asr", 0b0100000100)
 Rsb = make_regreg("rsb", 0b0100001001)
 
 
